@@ -800,6 +800,19 @@ def _bayer(np, B, mos, cfa, viol, bump, probes, name=None):
                                   np.asarray(b).copy(), cfa)
         if not np.array_equal(np.asarray(rec), mos):
             viol("bayer-roundtrip", "recomposite", cfa=cfa)
+        # the planes exactly as decomposite returned them (views of the mosaic), recomposed in the OTHER
+        # layout: every plane must land on that layout's sites
+        other = "bggr" if cfa == "rggb" else "rggb"
+        So = _SITES[other]
+        keep_mos = mos.copy()
+        rec_o = np.asarray(B.recomposite_bayer(r, g1, g2, b, other))
+        for nm, pl in (("r", r), ("g1", g1), ("g2", g2), ("b", b)):
+            if rec_o.shape != mos.shape or not np.array_equal(_site(rec_o, So[nm]), _site(keep_mos, S[nm])):
+                viol("bayer-roundtrip", "recomposite-other-layout", plane=nm, cfa=other)
+                break
+        if not np.array_equal(mos, keep_mos):
+            viol("input-mutated", "recomposite", what="the mosaic behind the planes was modified", cfa=other)
+            mos[...] = keep_mos
         buf = np.zeros_like(mos)
         rec2 = B.recomposite_bayer(np.asarray(r).copy(), np.asarray(g1).copy(), np.asarray(g2).copy(),
                                    np.asarray(b).copy(), cfa, output=buf)
